@@ -105,6 +105,14 @@ def apply_op(soup, op):
                 return 'unreachable-target'
         if k == 'delete':
             w.delete()
+            # the handle is stale now: using it again must fail (or do nothing), never remove an equal-looking sibling
+            before = str(soup)
+            try:
+                w.delete()
+            except Exception:   # noqa
+                pass
+            if str(soup) != before:
+                return 'stale-handle-delete-changed-the-document'
         elif k == 'replace_with':
             w.replace_with(*material(op['ms']))
         elif k == 'replace':
